@@ -347,7 +347,14 @@ def d3_buffers(facts, rep):
     for fn in facts.get(P + 'order'):
         hp = calls_named(fn, ('heapify',))
         rep.ob('D3', 'K4', fn, 'priority_queue_node::order heapifies leftover items', bool(hp), 'no heapify')
-    rep.floor('D3', 9, 'buffers')
+    # the same heap discipline as concurrent_priority_queue (C13-D4): items [0, mark) are a heap, [mark, my_tail) were pushed in
+    # this batch and are not merged yet; the sift-down of reheap() may look at children below mark only
+    from rules.C13 import sift_bound
+    sift_bound(facts, rep, facts.get(D2 + 'priority_queue_node::reheap'), 'D3',
+               lambda fn, node: (fn.callee(node['s']) or {}).get('n') in ('get_my_item', 'item') and bool(node.get('a')),
+               'the item at index ...')
+    d3_copy_keeps_user_state(facts, rep)
+    rep.floor('D3', 13, 'buffers')
 
 
 def d4_overwrite(facts, rep):
@@ -432,3 +439,45 @@ def d5_routing(facts, rep):
     if n < 2:
         raise AnalysisBroken('split_node / indexer_node helpers not instantiated')
     rep.floor('D5', 3, 'routing')
+
+
+def d3_copy_keeps_user_state(facts, rep):
+    """A copy of a node is documented to behave like the original with empty buffers: it keeps the user's functors and
+    parameters (body, sequencer, key functions, comparator, threshold).  Sibling agreement between the constructors of one
+    class: a member that an ordinary constructor initialises from a constructor argument is user-supplied state; the copy
+    constructor must initialise it from its source object.  A default-initialised comparator in a copied priority_queue_node
+    orders the copy differently from the original (or, for a function pointer, not at all)."""
+    n = 0
+    for p, fns in sorted(facts.by_p.items()):
+        if not p.startswith(D2) or not p.endswith('::(ctor)'):
+            continue
+        cls = p[:-len('::(ctor)')]
+        short = cls.split('::')[-1]
+
+        def inits(fn):
+            out = {}
+            for b, i, e in fn.iter_elems():
+                if isinstance(e, dict) and 'i' in e and not e['i'].startswith('(base)') and e.get('s', -1) >= 0:
+                    out[e['i']] = (any(fn.nodes[x].get('k') == 'var' and 'param' in fn.nodes[x] for x in fn.subtree(e['s'])), e.get('ln'))
+            return out
+        copy = [f for f in fns if len(f.d.get('params', [])) == 1 and short in (f.d['params'][0].get('ty') or '') and
+                'const' in f.d['params'][0]['ty'] and '&' in f.d['params'][0]['ty']]
+        other = [f for f in fns if f not in copy]
+        if not copy or not other:
+            continue
+        user = set()
+        for f in other:
+            for k, (from_param, ln) in inits(f).items():
+                if from_param:
+                    user.add(k)
+        for f in copy:
+            ci = inits(f)
+            for k in sorted(user):
+                if k not in ci:
+                    continue
+                n += 1
+                rep.ob('D3', 'K7', f, 'the copy constructor of %s takes `%s` (user-supplied state) from its source' % (short, k), ci[k][0],
+                       '`%s` is initialised from a constructor argument by the ordinary constructor but default-initialised in the copy: the '
+                       'copy does not keep the user\'s functor / parameter' % k, ln=ci[k][1], key_extra='copy|%s|%s' % (cls, k))
+    if n < 5:
+        raise AnalysisBroken('copy constructors with user-supplied members: fewer than confirmed by reading (%d)' % n)
